@@ -105,9 +105,11 @@ def run(res, tier, seed):
         prt3, ict10, space10, base = thermal.make_telemetry(rng, stream_l, residue)
         cnt = np.tile(np.array([200.0, 400.0, 600.0, 800.0]), (N, 1))
         ref = None
+        # the readers hand over the scan line numbers in the type of the record field: unsigned 16 bit (KLM), signed 16 bit (POD)
+        ldt = rng.choice([None, ">u2", ">i2"])
         for ph in range(5):
             sl = slice(ph, N)
-            kind, out = call_impl(cal, chan, stream_l[sl], prt3[sl], ict10[sl], space10[sl], cnt[sl])
+            kind, out = call_impl(cal, chan, stream_l[sl], prt3[sl], ict10[sl], space10[sl], cnt[sl], line_dtype=ldt)
             if kind != 3:
                 res.violations.append(("calibrate_thermal failed for a starting phase (kind %d)" % kind, dict(spacecraft=sc, phase=ph)))
                 continue
@@ -116,7 +118,7 @@ def run(res, tier, seed):
                 ref = core
             elif not np.allclose(core, ref, rtol=0, atol=1e-9, equal_nan=True):
                 res.violations.append(("result depends on the PRT-cycle phase at which the file starts",
-                                       dict(spacecraft=sc, channel=thermal.IR[chan], phase=ph, residue=residue,
+                                       dict(spacecraft=sc, channel=thermal.IR[chan], phase=ph, residue=residue, line_number_dtype=ldt,
                                             max_difference=float(np.nanmax(np.abs(core - ref))))))
         # --- pixel-local ---
         kind, a = call_impl(cal, chan, stream_l, prt3, ict10, space10, cnt)
